@@ -1,5 +1,5 @@
 (** Model of pint's PromQL label-flow analyser, internal/parser/utils/source.go, as the code is NOW
-    (after fixes c0db6fa, f3c0f95, 392e95a, 78dbe66): [walk_node] and every transfer function, [can_have_label], [can_join],
+    (after fixes c0db6fa, f3c0f95, 392e95a, 78dbe66, 5b88941): [walk_node] and every transfer function, [can_have_label], [can_join],
     [calculate_static_return], and the two consumers (alerts/template label check, promql/impossible).
 
     Not modelled (message-only data): ExcludeReason texts/fragments, Position/IsDeadPosition, IsDeadReason text
@@ -155,6 +155,21 @@ Definition labels_with_empty_value_selector (ms : list matcher) : list string :=
                else if matchtype_eqb (m_type lm) MEq && String.eqb (m_value lm) "" then append_to_slice names [m_name lm]
                else names) ms [].
 
+(** absentLabels (fix 5b88941): the labels absent()/absent_over_time() copy to their result -- equality matchers with a
+    non-empty value of a plain (matrix) selector argument, unless the label name is matched more than once. *)
+Definition count_name (n : string) (ms : list matcher) : nat :=
+  List.length (filter (fun m => String.eqb (m_name m) n) ms).
+
+Definition absent_skip (ms0 : list matcher) (lm : matcher) : bool :=
+  String.eqb (m_name lm) metric_name || negb (matchtype_eqb (m_type lm) MEq) || String.eqb (m_value lm) ""
+  || Nat.ltb 1 (count_name (m_name lm) ms0).
+
+Definition absent_names (arg : option expr) : list string :=
+  match (match arg with Some (ESel ms) => Some ms | Some (EMatrix (ESel ms)) => Some ms | _ => None end) with
+  | None => []
+  | Some ms => fold_left (fun names lm => if absent_skip ms lm then names else append_to_slice names [m_name lm]) ms []
+  end.
+
 (** Source.CanHaveLabel *)
 Definition can_have_label (s : source) (name : string) : bool :=
   if mem_str name (s_excluded s) then false
@@ -246,7 +261,7 @@ Section Walk.
       let s := set_always (set_dead_label (set_dead (set_returns s VVector) false) None) false in
       let s := clear_labels (set_fixed s true) in
       fold_left (fun s name => guarantee_label (include_label s [name]) [name])
-                (labels_from_selectors ["MatchEqual"] (s_selector s)) s
+                (absent_names (nth_error args 0)) s
     else if String.eqb kind "timelike" then
       let s := set_returns s VVector in
       match args with
